@@ -211,12 +211,7 @@ func ruleFreezeHandshake(r *Run, rule string) {
 func ruleStoreParams(r *Run, rule string, k *storeKind) {
 	w := r.W
 	r.Doc(rule, "a search parameter is applied to memtables but not to segments (or vice versa)")
-	var seg *ssa.Function
-	for _, fn := range w.Funcs {
-		if fn.Parent() == k.Execute && len(callsIn(fn, func(cc *ssa.CallCommon) bool { return staticCallee(cc) == k.GetIndex })) > 0 {
-			seg = fn
-		}
-	}
+	seg := segmentSearchFn(w, k)
 	if seg == nil {
 		r.Unres(rule, "params:closure", "segment closure not found")
 		return
